@@ -486,10 +486,14 @@ def build_unit(unit):
         # R17 on the whole text (a signature may span several lines; `[^)]` also matches newlines: line preserving)
         body, n17 = re.subn(r'\bfn (\w+)\(([^)]*?)\b(\w+): &mut impl ([\w:]+)([^)]*)\)', r'fn \1<R: \4>(\2\3: &mut R\5)', body)
         c9["R17"] = n17
+        # R1 on the whole text as well: the cast may be written on a continuation line and the operand may span lines
+        body = re.sub(r'\.ceil\(\)(\s+)as usize', lambda m: '.ceil() as usize' + m.group(1), body)
+        body, n1 = r1_ceil(body)
         lines2 = body.splitlines(True)
         assert len(lines2) == len(lines), "R9 must preserve line count"
         lines2, hits = apply_rewrites(lines2, {})
         hits.update(c9)
+        hits["R1"] = hits.get("R1", 0) + n1
         for extra in getattr(unit, 'EXTRA_RULES', {}).get(rel, []):
             rid, rx, rep, desc = extra
             cnt = 0
